@@ -295,7 +295,7 @@ def run(ctx):
     if not canonical:
       return False
     if ctx.thorough:
-      return k <= 4 or k == 8
+      return k <= 3 or k == 8 or (k == 4 and cfg['rf'] == 2 and cfg['router'] == 'consistent-hashing')
     plain = cfg['router'] in ('consistent-hashing', 'fast-hashing')
     idx = tuple(UNIVERSE.index(d) for d in cfg['dests'])
     return plain and (idx in ((0,), (7,)) or (idx in ((0, 1), (0, 3), (0, 1, 3), (0, 3, 5))
